@@ -114,10 +114,11 @@ Definition alloc_array (ov_err : Z) (item nmemb : N) : res N :=
   end.
 
 (* ---- the image file: lib/sqfs/src/io/file.c stdio_read_at (unix) ----
-   size 0 succeeds at any offset; an offset that is negative as off_t makes
-   pread fail (SQFS_ERROR_IO); running off the end is SQFS_ERROR_OUT_OF_BOUNDS. *)
+   size 0 succeeds at any offset; a range that does not fit a (signed) off_t makes
+   pread fail with EINVAL (SQFS_ERROR_IO; Linux rw_verify_area); running off the end is
+   SQFS_ERROR_OUT_OF_BOUNDS. *)
 Definition read_at (img : list N) (off n : N) : res (list N) :=
   if n =? 0 then Ok []
-  else if two63 <=? off then Err E_IO
+  else if two63 <=? off + n then Err E_IO
   else if off + n <=? lenN img then Ok (firstn (nN n) (skipn (nN off) img))
   else Err E_OOB.
